@@ -1,8 +1,8 @@
 """Real rpyc servers for C16 / C17 (DESIGN.md 6.4).
 
 A *case* is (kind, transport, auth, nb, ops): kind in threaded | pool | oneshot | forking, transport in
-tcp | unix, ops = the token strings of lean/Driver/Server.lean (c<k>:<g|b|s>, p<k>, l<k>, o<k>:<n>, g<k>,
-a<k>, X, i<k>:<hbt..>, r<k>:<hex>).  `Session` starts the real server (threaded / pool / one-shot in this
+tcp | unix, ops = the token strings of lean/Driver/Server.lean (c<k>:<g|b|s|r>, k<k>:<g|b>, p<k>, l<k>,
+o<k>:<n>, d<k>:<n>, g<k>, a<k>, X, i<k>:<hbt..>, r<k>:<hex>).  `Session` starts the real server (threaded / pool / one-shot in this
 process on port 0 or a temp unix path; the forking server in a subprocess, because fork and SIGCHLD want a
 main thread of their own), executes one op at a time with real client sockets, and renders what can be
 observed in the text form the driver prints:
@@ -62,11 +62,16 @@ def quiet_logger():
 def wait_for(pred, ceiling=CEILING, interval=INTERVAL):
     """poll `pred` until true; returns elapsed seconds or None at the ceiling"""
     t0 = time.time()
+    next_gc = 0.25
     while True:
         if pred():
             return time.time() - t0
         if time.time() - t0 >= ceiling:
             return None
+        if time.time() - t0 >= next_gc:       # sockets caught in reference cycles are released by the cyclic collector
+            import gc
+            gc.collect()
+            next_gc += 1.0
         time.sleep(interval)
 
 
@@ -79,6 +84,7 @@ class Obj(object):
     """something that is passed by reference"""
     def __init__(self, owner):
         self.owner = owner
+        self.exposed_owner = owner       # so that getattr(proxy, "owner") is allowed by the default policy
 
     def __str__(self):
         return "obj-of-%r" % (self.owner,)
@@ -159,8 +165,8 @@ def install_frame_counter(sink=None):
     """count the complete frames the server-side connections consume: `Connection.serve` returning True or raising
     anything but EOFError.  Class-level wrappers put in place by the harness at run time (never in /repo); server-side
     connections are those created with `endpoints` in their configuration (what all four servers do).  Requests that are
-    the client library's own housekeeping (GETROOT, INSPECT of a new proxy class, DEL of a dropped proxy) are not
-    counted, so that one call of a well-behaved client is one frame."""
+    the client library's own housekeeping (GETROOT, INSPECT of a new proxy class) are not counted, so that one call of a
+    well-behaved client is one frame (the harness keeps every proxy alive, so no finalizer sends a DEL of its own)."""
     from rpyc.core import brine, consts
     from rpyc.core.protocol import Connection
     if _orig_serve[0] is not None:
@@ -168,7 +174,7 @@ def install_frame_counter(sink=None):
     orig, orig_dispatch = Connection.serve, Connection._dispatch
     _orig_serve[0] = (orig, orig_dispatch)
     _frame_sink[0] = sink
-    skip = (consts.HANDLE_GETROOT, consts.HANDLE_INSPECT, consts.HANDLE_DEL)
+    skip = (consts.HANDLE_GETROOT, consts.HANDLE_INSPECT)     # HANDLE_DEL counts: the harness sends it deliberately only
     tls = threading.local()
 
     def count(conn):
@@ -520,7 +526,20 @@ class Client(object):
 
     def connect(self, cred):
         be = self.sess.backend
+        if cred == "r" and be.transport != "tcp":
+            raise ValueError("connect-and-reset needs TCP (SO_LINGER 0)")
         try:
+            if cred == "r":
+                # complete the handshake, then reset at once: SO_LINGER on with linger 0 makes close() send RST
+                s = socket.socket(socket.AF_INET, socket.SOCK_STREAM)
+                s.setsockopt(socket.SOL_SOCKET, socket.SO_LINGER, struct.pack("ii", 1, 0))
+                s.settimeout(3)
+                s.connect(be.addr)
+                self.peer = peer_key(s.getsockname())
+                self.sess.flash_peers.add(self.peer)
+                s.close()
+                self.sock, self.open, self.eof = s, False, True
+                return "ok"
             if be.transport == "unix":
                 s = socket.socket(socket.AF_UNIX, socket.SOCK_STREAM)
                 _serial[0] += 1
@@ -571,17 +590,31 @@ class Client(object):
                 # the service instance answers with everything it was ever asked to mark and a fresh object by reference
                 marks, ref = conn.sync_request(_c.HANDLE_CALLATTR, conn.root, "make", (self.k,), ())
                 self.refs.append(ref)
-                self.sess.lends.append((self.k, object.__getattribute__(ref, "____id_pack__")))
+                self.sess.lends.append((self.k, object.__getattribute__(ref, "____id_pack__"), ref))
                 return "ref" if set(marks) == {self.k} else "leak"
             if what == "probe":
                 # use an object id on THIS connection: a hand-made proxy (no INSPECT round trip), one HANDLE_STR request
-                proxy = _nr.class_factory(arg, ())(conn, arg)
+                # (a forged LABEL_LOCAL_REF: `_box` sends the id pack of a proxy that claims to belong to this connection);
+                # the request kind rotates: str(obj) / getattr(obj, "owner") / hash(obj)
+                id_pack, variant = arg
+                proxy = _nr.class_factory(id_pack, ())(conn, id_pack)
                 self.refs.append(proxy)
                 try:
-                    conn.sync_request(_c.HANDLE_STR, proxy)
+                    if variant % 3 == 0:
+                        conn.sync_request(_c.HANDLE_STR, proxy)
+                    elif variant % 3 == 1:
+                        conn.sync_request(_c.HANDLE_GETATTR, proxy, "owner")
+                    else:
+                        conn.sync_request(_c.HANDLE_HASH, proxy)
                     return "resolved"
                 except KeyError:
                     return "keyerr"
+                except AttributeError:
+                    return "resolved"        # found, then refused by the attribute policy: the reference did resolve
+            if what == "drop":
+                # let go of a lent object: one HANDLE_DEL request (the proxy itself is kept, so its finalizer stays quiet)
+                conn.sync_request(_c.HANDLE_DEL, arg, 1)
+                return "done"
         except EOFError:
             self.eof = True
             return "eof"
@@ -595,6 +628,12 @@ class Client(object):
                 return "timeout"
             return "exc:" + type(ex).__name__
         return "?"
+
+    def send_creds(self, good):
+        try:
+            self.sock.sendall(b"A" if good else b"X")
+        except OSError:
+            pass
 
     def send_raw(self, data):
         try:
@@ -693,6 +732,7 @@ class Session(object):
         self.tmpdir = tempfile.mkdtemp(prefix="rpycverif-")
         self.clients = {}
         self.lends = []
+        self.flash_peers = set()
         self.proc_fds = nfds()
         self.proc_threads = threading.active_count()
         self.residue = None
@@ -747,7 +787,20 @@ class Session(object):
             c = self.clients.get(int(k))
             if c is None or not c.open or int(n) >= len(self.lends):
                 return "skip"
-            return c.call("probe", self.lends[int(n)][1])
+            return c.call("probe", (self.lends[int(n)][1], int(n) + int(k)))
+        if t == "d":
+            k, n = rest.split(":")
+            c = self.clients.get(int(k))
+            if c is None or not c.open or int(n) >= len(self.lends) or self.lends[int(n)][0] != int(k):
+                return "skip"
+            return c.call("drop", self.lends[int(n)][2])
+        if t == "k":
+            k, cred = rest.split(":")
+            c = self.clients.get(int(k))
+            if c is None or not c.open:
+                return "skip"
+            c.send_creds(cred == "g")
+            return "-"
         if t == "r":
             parts = rest.split(":")
             c = self.clients.get(int(parts[0]))
@@ -766,6 +819,10 @@ class Session(object):
         hooks = self.backend.hook_table()
         insts, per = [], {}
         for what, peer, inst in hooks:
+            if peer in self.flash_peers:
+                # a connection reset right after the handshake: whether the server got as far as building a connection for
+                # it before noticing is a race of the runtime, and no client is left to care
+                continue
             key = inst if isinstance(inst, str) else id(inst)
             if what == "c" and key not in insts:
                 insts.append(key)
@@ -789,6 +846,7 @@ class Session(object):
         `settle` seconds; without `expect`, until it has not changed for 3 * settle.  Returns (line, agreed)"""
         obs = self.do(tok)
         t0 = time.time()
+        next_gc = 0.25
         last, since = None, time.time()
         want = None if expect is None else expect.split("|", 1)[1]
         while True:
@@ -803,6 +861,12 @@ class Session(object):
                 return obs + "|" + cur, True
             if now - t0 >= ceiling:
                 return obs + "|" + cur, False
+            if now - t0 >= next_gc:
+                # a socket caught in a reference cycle (an exception's traceback holding the frame that holds the socket) is
+                # released by the cyclic collector, not by the reference count: give it its chance before judging
+                import gc
+                gc.collect()
+                next_gc += 1.0
             time.sleep(INTERVAL)
 
     def close(self):
